@@ -496,3 +496,49 @@ func (w *World) isConst(v int64) func(ast.Expr) bool {
 func (w *World) isCallOf(obj types.Object) func(ast.Expr) bool {
 	return func(e ast.Expr) bool { c, ok := unparen(e).(*ast.CallExpr); return ok && w.Callee(c) == obj }
 }
+
+// threeWay: cond (evaluating to val) asserts "cmpFn(first, other) op 0", where cmpFn is a
+// three-way comparison (bytes.Compare, y.CompareKeys) one of whose two arguments satisfies
+// isFirst. The operator is oriented so that `first` is the left argument, whatever the
+// order of the call's arguments or of the comparison with zero in the source.
+func (w *World) threeWay(cond ast.Expr, val bool, isFirst func(ast.Expr) bool, cmpFns ...types.Object) (token.Token, *ast.CallExpr, bool) {
+	be, ok := unparen(cond).(*ast.BinaryExpr)
+	if !ok {
+		return token.ILLEGAL, nil, false
+	}
+	isCmp := func(e ast.Expr) bool {
+		c, ok := unparen(e).(*ast.CallExpr)
+		if !ok || len(c.Args) != 2 {
+			return false
+		}
+		for _, o := range cmpFns {
+			if w.Callee(c) == o {
+				return true
+			}
+		}
+		return false
+	}
+	op, ok := w.cmpRoles(cond, val, isCmp, w.isConst(0))
+	if !ok {
+		return token.ILLEGAL, nil, false
+	}
+	var call *ast.CallExpr
+	for _, e := range []ast.Expr{be.X, be.Y} {
+		if isCmp(e) {
+			call = unparen(e).(*ast.CallExpr)
+		} else if o := w.from(e); isCmp(o) {
+			call = unparen(o).(*ast.CallExpr)
+		}
+	}
+	if call == nil {
+		return token.ILLEGAL, nil, false
+	}
+	a0, a1 := isFirst(call.Args[0]), isFirst(call.Args[1])
+	switch {
+	case a0 && !a1:
+		return op, call, true
+	case a1 && !a0:
+		return swapOp(op), call, true
+	}
+	return token.ILLEGAL, call, false
+}
